@@ -278,6 +278,7 @@ def run(chk):
     gen_c16.generate()          # T-data / source-shape facts regenerated from /repo on every run
     chk.trusted.append('harness/shape.py: AST lookup of the statements mirrored by the hand model (Gen/C16Shape.v)')
     proved = chk.prove(['theories/Gen/C16Shape.v', 'theories/C16/HOF.v', 'theories/C16/Model.v', 'theories/C16/Proofs.v', 'theories/C16/Run.v'], 'theories/C16/Properties.v')
+    proved = chk.prove(['theories/C15/Keys.v', 'theories/C08/Typed.v', 'theories/C16/TypedSort.v'], 'theories/C16/TypedSortProperties.v') and proved
     model_ok = True
     if not proved:
         try:
@@ -367,6 +368,62 @@ def run(chk):
             except ElementPathError as ex:
                 chk.violation('impl-vs-spec', {'expr': text}, 'raised ' + str(ex))
             chk.nontrivial.add(text)
+    # ---- fn:sort / array:sort on typed atomic values (C16/TypedSort.v over the values of C08/Typed.v)
+    from props.c08_typed import TV
+    import xml.etree.ElementTree as _ET
+    from elementpath import XPathContext as _Ctx
+    _root = _ET.XML('<r/>')
+    tval = {e: XPath31Parser().parse(e).evaluate() for e, _, _ in TV}
+    scases = []
+    groups = sorted({t[2] for t in TV})
+    for _ in range(150 if quick else 6000):
+        r = rng.random()
+        if r < 0.7:
+            g = rng.choice(groups)
+            pool = [t for t in TV if t[2] == g]
+        elif r < 0.85:
+            g = rng.sample(groups, 2)
+            pool = [t for t in TV if t[2] in g]
+        else:
+            pool = TV
+        scases.append([rng.choice(pool) for _ in range(rng.randint(2, 6))])
+    for a in TV:
+        for b in TV:
+            scases.append([a, b])
+    smodel = core.run_coq_cases('C16', 'From EP Require Import C15.Keys C08.Typed C16.TypedSort.',
+                                ['run_sort [' + '; '.join(t[1] for t in sq) + ']' for sq in scases], chunk=400, tag='tsort') if model_ok else [None] * len(scases)
+    stok = XPath31Parser().parse('sort($S)')
+    atok = XPath31Parser().parse('array:sort(array { $S })?*')
+    for sq, mo in zip(scases, smodel):
+        vals = [tval[t[0]] for t in sq]
+        for form, tok in (('sort', stok), ('array:sort', atok)):
+            chk.evaluations += 1
+            chk.count('sort-typed')
+            desc = {'fn': form, 'S': [t[0] for t in sq]}
+            try:
+                r = tok.evaluate(_Ctx(_root, variables={'S': vals}))
+                r = r if isinstance(r, list) else [r]
+                got = []
+                used = set()
+                for item in r:      # positions of the result items in the input (identity first)
+                    j = next((k for k, v in enumerate(vals) if v is item and k not in used), None)
+                    if j is None:
+                        j = next((k for k, v in enumerate(vals) if k not in used and type(v) is type(item) and str(v) == str(item)), -1)
+                    used.add(j)
+                    got.append(j)
+            except ElementPathError as ex:
+                got = [-9] if 'XPTY0004' in str(ex.code) else ['error ' + str(ex.code)]
+            except Exception as ex:
+                chk.violation('foreign-exception', desc, repr(ex)[:200])
+                continue
+            if mo is None:
+                continue
+            want = list(mo)
+            if got != want:
+                chk.corr_fail.append((desc, got, want))
+                chk.violation('impl-vs-spec', desc, {'impl (input positions)': got, 'spec': want})
+        if mo is not None and list(mo) != [-9]:
+            chk.nontrivial.add(repr(('tsort', [t[0] for t in sq])))
     chk.rule = ('fixed corpus (closures in loops, closure factories, shadowing at call time, HOFs, stable sort, partial application) + seeded '
                 'typed random programs (depth <= 4) evaluated twice under the 3.1 and 3.0 parsers against C16.Model.eval; non-trivial = distinct program')
     chk.obligations.append({'name': 'correspondence:impl==reference semantics', 'ok': not chk.corr_fail,
